@@ -100,7 +100,8 @@ def run_case(case):
         from pynetdicom2 import fsm, pdu
         from . import scen
         src, rsn = case['source'], case['reason']
-        a, b = socket.socketpair()
+        from . import s3 as _s3
+        a, b = _s3.tcp_pair()
         done = {}
 
         def peer():
@@ -161,7 +162,8 @@ def run_case(case):
         import socket, threading
         from pynetdicom2 import fsm, pdu
         from . import scen
-        a, b = socket.socketpair()
+        from . import s3 as _s3
+        a, b = _s3.tcp_pair()
         done = {'types': [], 'eof': False}
 
         def peer():
@@ -298,14 +300,14 @@ def replay(case):
 def run(chk):
     tier = chk.tier
     rnd = common.rng('c14')
-    chk.rule = ('two real Association objects with their real provider threads over socket.socketpair(), wire traffic teed: '
+    chk.rule = ('two real Association objects with their real provider threads over a TCP connection on loopback, wire traffic teed: '
                 'refusals with every standard (result, source, reason) triple (2 x 3 x 10) and seeded triples over the byte '
                 'range; aborts by the acceptor (from inside a service, at the 1st..3rd exchange) and by the requestor (before '
                 'and between exchanges) with reasons over the byte range; leaving request_association normally and through '
                 'ValueError, a custom exception, ClassNotSupportedError, EventHandlingError, DCMTimeoutError, before and after '
                 'exchanges; judged: error type and fields at the other side, PDUs on the wire, no service on refusal, acceptor '
                 'thread gone; non-trivial = all')
-    chk.trusted += ['harness/s3.py socketpair + tee; OS thread scheduling is whatever it is on this run']
+    chk.trusted += ['harness/s3.py loopback pair + tee; OS thread scheduling is whatever it is on this run']
     cases = []
     triples = [(r, s, d) for r in (1, 2) for s in (1, 2, 3) for d in range(1, 11)]
     if tier == 'quick':
